@@ -922,3 +922,6 @@ mod test {
         assert_eq!(cache.put(4, 3), PutResult::Evicted { key: 1, value: 1 });
     }
 }
+
+#[cfg(feature = "verif-hooks")]
+mod verif;
